@@ -54,7 +54,7 @@ Definition t_outcome (x : sx) : sx :=
   let n := un_nat (nth_sx 3 x) in
   let k := un_nat (nth_sx 4 x) in
   let s := crash 4 n (run_ops cal p) (fs_old p) in
-  L [L [sx_fstate (f_build s); sx_list sx_fstate (f_imm s); sx_fstate (f_compdb s)];
+  L [L [sx_fstate (f_build s); sx_list sx_fstate (f_imm s); sx_fstate (f_compdb s); sx_fstate (f_deps s); sx_fstate (f_tmp s)];
      sx_list sx_result (attempts cal p e 5 k s);
      sx_bool (safe_at cal p e n k)].
 
